@@ -344,10 +344,32 @@ package builtInFunctions
 
 // ---- ESDTNFTCreateRoleTransfer --------------------------------------------------------------------------------------------------
 
+//@ func getLatestNonce
+//@   requires !isNil(acnt)
+//@   ensures[C07] err == nil ==> r == beval(St[addr(acnt)][Knonce(seq(tokenID))]) % 18446744073709551616 && readFailed == old(readFailed)
+//@   ensures err != nil ==> readFailed
+//@   modifies readFailed
+
+//@ func saveLatestNonce
+//@   requires !isNil(acnt)
+//@   ensures[C07] err == nil ==> St[addr(acnt)][Knonce(seq(tokenID))] == be(nonce) && failed == old(failed)
+//@   ensures[C17] err != nil ==> failed
+//@   ensures[C05] onlyChanged(St, old(St), addr(acnt), Knonce(seq(tokenID)))
+//@   modifies St, failed
+
+//@ func (e *esdtNFTCreateRoleTransfer) deleteCreateRoleFromAccount
+//@   requires e != nil && !isNil(e.marshalizer) && !isNil(acntDst)
+//@   ensures[C17] err == nil ==> failed == old(failed)
+//@   ensures[C05] onlyChanged(St, old(St), addr(acntDst), seq(esdtTokenRoleKey))
+//@   ensures old(readFailed) ==> readFailed
+//@   modifies St, failed, readFailed
+
 //@ func (e *esdtNFTCreateRoleTransfer) addCreateRoleToAccount
 //@   requires e != nil && !isNil(e.marshalizer) && !isNil(acntDst)
 //@   ensures[C17] err == nil ==> failed == old(failed)
-//@   ensures[C07] err == nil && !readFailed ==> len(St[addr(acntDst)][seq(esdtTokenRoleKey)]) != 0 && lcontains(dRoles(St[addr(acntDst)][seq(esdtTokenRoleKey)]), "ESDTRoleNFTCreate")
+//@   ensures[C07] err == nil && !readFailed ==> len(St[addr(acntDst)][seq(esdtTokenRoleKey)]) != 0
+//@   ensures[C07] err == nil && !readFailed && St == old(St) ==> lcontains(dRoles(St[addr(acntDst)][seq(esdtTokenRoleKey)]), "ESDTRoleNFTCreate")
+//@   ensures[C07] err == nil && !readFailed && St != old(St) ==> lcontains(dRoles(St[addr(acntDst)][seq(esdtTokenRoleKey)]), "ESDTRoleNFTCreate")
 //@   ensures[C05] onlyChanged(St, old(St), addr(acntDst), seq(esdtTokenRoleKey))
 //@   ensures old(readFailed) ==> readFailed
 //@   modifies St, failed, readFailed
